@@ -2,7 +2,7 @@
 structural tree specification (specs/die.py)."""
 from pyvc.contracts import contract
 from pyvc.shapes import *
-from specs.die import (die_at, child_off, is_null_at, term_off, subtree_end, nchildren_def, size_at, has_children_at,
+from specs.die import (has_top, die_at, child_off, is_null_at, term_off, subtree_end, nchildren_def, size_at, has_children_at,
                        attr_has, attr_form, attr_value, attr_raw, siblings_wellformed)
 from specs.lists import has_base, base_of
 from contracts._dwarf_shapes import *
@@ -52,7 +52,12 @@ class get_top_die:
 
 @contract(CU, "CompileUnit.has_top_DIE", props=["C04", "C10"])
 class has_top_die:
-    inline = True
+    """whether the root entry is cached (the one query that exposes the cache: used only to postpone the
+    resolution of the root entry's own index forms)"""
+    params = dict(self=CUFull)
+    rep_reader = True
+    returns = Bool
+    ensures = ["result == has_top(self)"]
 
 
 @contract(CU, "CompileUnit._get_cached_DIE", props=["C04", "C10"])
@@ -117,3 +122,63 @@ class iter_die_children:
                "die.has_children != True or die._terminator.size == size_at(self, term_off(self, die.offset))",
                "forall(lambda j: not is_null_at(self, child_off(self, die.offset, j)), 0, $n)"] + DIE_RI
     may_raise = PARSE_EXC + ["NotImplementedError"]
+
+
+from specs.contents import cstr_end
+from specs.lists import gaddr, offset_word
+from specs.die import has_top
+
+for _q in ("DWARFInfo.get_string_from_table", "DWARFInfo.get_string_from_linetable"):
+    @contract("elftools/dwarf/dwarfinfo.py", _q, props=["C04"])
+    class _inl:
+        inline = True
+
+ADDRX = "(form == 'DW_FORM_addrx' or form == 'DW_FORM_addrx1' or form == 'DW_FORM_addrx2' or form == 'DW_FORM_addrx3' or form == 'DW_FORM_addrx4')"
+STRX = "(form == 'DW_FORM_strx' or form == 'DW_FORM_strx1' or form == 'DW_FORM_strx2' or form == 'DW_FORM_strx3' or form == 'DW_FORM_strx4')"
+SUPS = "(form == 'DW_FORM_GNU_strp_alt' or form == 'DW_FORM_strp_sup')"
+OSZ = "(4 if self.cu.structs.dwarf_format == 32 else 8)"
+
+
+ALL_FORMS = ('DW_FORM_strp', 'DW_FORM_line_strp', 'DW_FORM_GNU_strp_alt', 'DW_FORM_strp_sup', 'DW_FORM_flag', 'DW_FORM_flag_present',
+             'DW_FORM_addrx', 'DW_FORM_addrx1', 'DW_FORM_addrx2', 'DW_FORM_addrx3', 'DW_FORM_addrx4', 'DW_FORM_strx', 'DW_FORM_strx1',
+             'DW_FORM_strx2', 'DW_FORM_strx3', 'DW_FORM_strx4', 'DW_FORM_loclistx', 'DW_FORM_rnglistx',
+             # representatives of the forms whose value is the raw value
+             'DW_FORM_addr', 'DW_FORM_data1', 'DW_FORM_sec_offset', 'DW_FORM_ref4', 'DW_FORM_exprloc', 'DW_FORM_indirect',
+             'DW_FORM_implicit_const')
+
+
+def _cstr(sec, off):
+    return "(%s.stream.B[%s : cstr_end(%s.stream.B, %s)] if exists(lambda j: %s.stream.B[j] == 0, %s, len(%s.stream.B)) else None)" % (
+        sec, off, sec, off, sec, off, sec)
+
+
+@contract(DIEF, "DIE._translate_attr_value", props=["C04", "C07"])
+class translate_attr_value:
+    """resolved value of an attribute (DWARF v5 7.5.5, 7.26, 7.27, 7.28, 7.29): strings through the string
+    tables, flags as booleans, index forms through the unit's tables -- entry width from the unit's
+    format, bases from the unit's root entry -- everything else unchanged.  The index forms of the root
+    entry itself are resolved later (after the entry has been read to its end), which is the only place
+    where the state of the entry cache is consulted."""
+    params = dict(self=Obj('DIE', cu=CUFull, dwarfinfo=Alias('cu.dwarfinfo'), offset=Nat), form=OneOf(*ALL_FORMS), raw_value=Nat)
+    requires = ["self.offset >= self.cu.cu_die_offset"]
+    ghost = {"$t": "has_top(self.cu) or self.offset != self.cu.cu_die_offset", "$D": "self.cu.dwarfinfo"}
+    modifies = ["*rep"]
+    returns = Any
+    ensures = [
+        "form != 'DW_FORM_strp' or result == " + _cstr("$D.debug_str_sec", "raw_value"),
+        "form != 'DW_FORM_line_strp' or result == " + _cstr("$D.debug_line_str_sec", "raw_value"),
+        "not (%s and $D.supplementary_dwarfinfo is not None) or result == %s" % (SUPS, _cstr("$D.supplementary_dwarfinfo.debug_str_sec", "raw_value")),
+        "form != 'DW_FORM_flag' or result == (raw_value != 0)",
+        "form != 'DW_FORM_flag_present' or result == True",
+        "not (%s and $t) or result == gaddr(self.cu, raw_value)" % ADDRX,
+        "not (%s and $t) or result == %s" % (STRX, _cstr("$D.debug_str_sec",
+            "offset_word($D.debug_str_offsets_sec.stream.B, base_of(self.cu, 'DW_AT_str_offsets_base') + raw_value * %s, self.cu.structs.dwarf_format)" % OSZ)),
+        "not (form == 'DW_FORM_loclistx' and $t) or result == base_of(self.cu, 'DW_AT_loclists_base') + "
+        "offset_word($D.debug_loclists_sec.stream.B, base_of(self.cu, 'DW_AT_loclists_base') + raw_value * %s, self.cu.structs.dwarf_format)" % OSZ,
+        "not (form == 'DW_FORM_rnglistx' and $t) or result == base_of(self.cu, 'DW_AT_rnglists_base') + "
+        "offset_word($D.debug_rnglists_sec.stream.B, base_of(self.cu, 'DW_AT_rnglists_base') + raw_value * %s, self.cu.structs.dwarf_format)" % OSZ,
+        # everything else, and the root entry's index forms before the root is complete, is the raw value
+        "(form == 'DW_FORM_strp' or form == 'DW_FORM_line_strp' or (%s and $D.supplementary_dwarfinfo is not None) or form == 'DW_FORM_flag'"
+        " or form == 'DW_FORM_flag_present' or ((%s or %s or form == 'DW_FORM_loclistx' or form == 'DW_FORM_rnglistx') and $t))"
+        " or result == raw_value" % (SUPS, ADDRX, STRX)]
+    may_raise = ["ELFParseError", "DWARFError", "OverflowError", "KeyError"]
